@@ -1,12 +1,486 @@
-//! C34 — not built yet.
-use crate::runner::{Outcome, Summary};
-use crate::Ctx;
-use serde_json::Value;
+//! C34 — placeholder resolution assigns unique, consistent values.
+//!
+//! replay: TLC cases {body, mode, tmap, qmap, result} from spec/mc/MC_Placeholders.tla are executed on
+//!         `Program::resolve_placeholders` (mode "default") or
+//!         `Program::resolve_placeholders_with_custom_resolvers` (mode "custom", the partial maps of the case).
+//!         The model's instruction classes are spelled as concrete instructions in three ways so that every
+//!         qubit-carrying instruction kind (GATE, MEASURE, RESET, DELAY, FENCE, PULSE, CAPTURE, RAW-CAPTURE,
+//!         SET-FREQUENCY/PHASE/SCALE, SHIFT-FREQUENCY/PHASE, SWAP-PHASES) and every target-carrying kind is hit.
+//! drive:  seeded random bodies (longer, more placeholders, all kinds, arities 1..3), default and custom
+//!         resolution, recorded as reset / tresolver / qresolver / resolved events for
+//!         spec/trace/PlaceholdersTrace.tla.
+//!
+//! Programs are built by parsing a template per kind and overwriting its public qubit / target fields;
+//! results are read back through the same public fields (`read_back`) - never through `get_qubits`, which
+//! is part of what is being checked.
+//!
+//! Verdict = the statement (`requirement_failures`): every placeholder replaced, consistently, injectively,
+//! away from fixed qubits / labels of the body (default); exactly the returned ones replaced (custom).
+//! The exact numbers / names chosen by the default resolvers are divergence only.
+//! Guards fix 3e5db1c (qubit placeholders inside the frames of SET-*, SHIFT-*, SWAP-PHASES).
 
-pub fn replay(_ctx: &Ctx, _case: &Value) -> Outcome {
-    panic!("C34: replay not implemented")
+use crate::runner::{Outcome, Summary, Violation};
+use crate::util::{self, arr, instr, s};
+use crate::Ctx;
+use quil_rs::instruction::{Instruction, Qubit, QubitPlaceholder, Target, TargetPlaceholder};
+use quil_rs::quil::Quil;
+use quil_rs::Program;
+use rand::seq::SliceRandom;
+use rand::Rng;
+use serde_json::{json, Value};
+use std::collections::{BTreeMap, BTreeSet};
+
+const T_KINDS: [&str; 4] = ["Label", "Jump", "JumpWhen", "JumpUnless"];
+const GATE_LIKE_1: [&str; 8] = ["Gate", "Measure", "Reset", "Delay", "Fence", "Pulse", "Capture", "RawCapture"];
+const GATE_LIKE_N: [&str; 6] = ["Gate", "Fence", "Delay", "Pulse", "Capture", "RawCapture"];
+const UPDATES: [&str; 5] = ["ShiftPhase", "SetFrequency", "SetPhase", "SetScale", "ShiftFrequency"];
+
+fn is_t(kind: &str) -> bool {
+    T_KINDS.contains(&kind)
 }
 
-pub fn drive(_ctx: &Ctx) -> Summary {
-    panic!("C34: drive not implemented")
+/// identity table of the placeholders of one program
+#[derive(Default)]
+struct Ids {
+    q: BTreeMap<u64, QubitPlaceholder>,
+    t: BTreeMap<u64, TargetPlaceholder>,
+}
+
+impl Ids {
+    fn qubit(&mut self, v: &Value) -> Qubit {
+        match s(v, "t").as_str() {
+            "fixed" => Qubit::Fixed(util::u(v, "n")),
+            "var" => Qubit::Variable(s(v, "s")),
+            "ph" => Qubit::Placeholder(self.q.entry(util::u(v, "id")).or_default().clone()),
+            other => panic!("unknown qubit tag {other}"),
+        }
+    }
+    fn target(&mut self, v: &Value) -> Target {
+        match s(v, "t").as_str() {
+            "fixed" => Target::Fixed(s(v, "s")),
+            "ph" => {
+                let base = s(v, "base");
+                Target::Placeholder(self.t.entry(util::u(v, "id")).or_insert_with(|| TargetPlaceholder::new(base)).clone())
+            }
+            other => panic!("unknown target tag {other}"),
+        }
+    }
+    fn qubit_abs(&self, q: &Qubit) -> Value {
+        match q {
+            Qubit::Fixed(n) => json!({"t": "fixed", "n": n}),
+            Qubit::Variable(v) => json!({"t": "var", "s": v}),
+            Qubit::Placeholder(p) => match self.q.iter().find(|(_, x)| *x == p) {
+                Some((id, _)) => json!({"t": "ph", "id": id}),
+                None => json!({"t": "ph", "id": 999}), // a placeholder the body never contained
+            },
+        }
+    }
+    fn target_abs(&self, t: &Target) -> Value {
+        match t {
+            Target::Fixed(name) => json!({"t": "fixed", "s": name}),
+            Target::Placeholder(p) => match self.t.iter().find(|(_, x)| *x == p) {
+                Some((id, _)) => json!({"t": "ph", "id": id, "base": p.as_inner()}),
+                None => json!({"t": "ph", "id": 999, "base": p.as_inner()}),
+            },
+        }
+    }
+}
+
+/// build one concrete instruction of the given kind on the given qubits / target
+fn make(kind: &str, qs: Vec<Qubit>, target: Option<Target>) -> Instruction {
+    let template = match kind {
+        "Gate" => "X 0",
+        "Measure" => "MEASURE 0 ro[0]",
+        "Reset" => "RESET 0",
+        "Delay" => "DELAY 0 1.0",
+        "Fence" => "FENCE 0",
+        "Pulse" => "PULSE 0 \"rf\" wf",
+        "Capture" => "CAPTURE 0 \"ro\" wf ro[0]",
+        "RawCapture" => "RAW-CAPTURE 0 \"ro\" 1.0 raw[0]",
+        "SetFrequency" => "SET-FREQUENCY 0 \"rf\" 1.0",
+        "SetPhase" => "SET-PHASE 0 \"rf\" 1.0",
+        "SetScale" => "SET-SCALE 0 \"rf\" 1.0",
+        "ShiftFrequency" => "SHIFT-FREQUENCY 0 \"rf\" 1.0",
+        "ShiftPhase" => "SHIFT-PHASE 0 \"rf\" 1.0",
+        "SwapPhases" => "SWAP-PHASES 0 \"rf\" 1 \"rf\"",
+        "Label" => "LABEL @x",
+        "Jump" => "JUMP @x",
+        "JumpWhen" => "JUMP-WHEN @x ro[0]",
+        "JumpUnless" => "JUMP-UNLESS @x ro[0]",
+        other => panic!("unknown kind {other}"),
+    };
+    let mut i = instr(template);
+    let one = |qs: &Vec<Qubit>| -> Qubit {
+        assert!(qs.len() == 1, "{kind} takes one qubit");
+        qs[0].clone()
+    };
+    match &mut i {
+        Instruction::Gate(g) => g.qubits = qs,
+        Instruction::Measurement(m) => m.qubit = one(&qs),
+        Instruction::Reset(r) => r.qubit = Some(one(&qs)),
+        Instruction::Delay(d) => d.qubits = qs,
+        Instruction::Fence(f) => f.qubits = qs,
+        Instruction::Pulse(p) => p.frame.qubits = qs,
+        Instruction::Capture(c) => c.frame.qubits = qs,
+        Instruction::RawCapture(c) => c.frame.qubits = qs,
+        Instruction::SetFrequency(x) => x.frame.qubits = qs,
+        Instruction::SetPhase(x) => x.frame.qubits = qs,
+        Instruction::SetScale(x) => x.frame.qubits = qs,
+        Instruction::ShiftFrequency(x) => x.frame.qubits = qs,
+        Instruction::ShiftPhase(x) => x.frame.qubits = qs,
+        Instruction::SwapPhases(x) => {
+            let cut = (qs.len() + 1) / 2;
+            x.frame_1.qubits = qs[..cut].to_vec();
+            x.frame_2.qubits = qs[cut..].to_vec();
+        }
+        Instruction::Label(l) => l.target = target.expect("target"),
+        Instruction::Jump(j) => j.target = target.expect("target"),
+        Instruction::JumpWhen(j) => j.target = target.expect("target"),
+        Instruction::JumpUnless(j) => j.target = target.expect("target"),
+        other => panic!("template of {kind} parsed as {other:?}"),
+    }
+    i
+}
+
+/// abstraction of a real instruction through its public fields
+fn read_back(i: &Instruction, ids: &Ids) -> Value {
+    let q = |k: &str, qs: Vec<&Qubit>| json!({"k": k, "qs": qs.into_iter().map(|x| ids.qubit_abs(x)).collect::<Vec<_>>()});
+    match i {
+        Instruction::Gate(g) => q("Gate", g.qubits.iter().collect()),
+        Instruction::Measurement(m) => q("Measure", vec![&m.qubit]),
+        Instruction::Reset(r) => q("Reset", r.qubit.iter().collect()),
+        Instruction::Delay(d) => q("Delay", d.qubits.iter().collect()),
+        Instruction::Fence(f) => q("Fence", f.qubits.iter().collect()),
+        Instruction::Pulse(p) => q("Pulse", p.frame.qubits.iter().collect()),
+        Instruction::Capture(c) => q("Capture", c.frame.qubits.iter().collect()),
+        Instruction::RawCapture(c) => q("RawCapture", c.frame.qubits.iter().collect()),
+        Instruction::SetFrequency(x) => q("SetFrequency", x.frame.qubits.iter().collect()),
+        Instruction::SetPhase(x) => q("SetPhase", x.frame.qubits.iter().collect()),
+        Instruction::SetScale(x) => q("SetScale", x.frame.qubits.iter().collect()),
+        Instruction::ShiftFrequency(x) => q("ShiftFrequency", x.frame.qubits.iter().collect()),
+        Instruction::ShiftPhase(x) => q("ShiftPhase", x.frame.qubits.iter().collect()),
+        Instruction::SwapPhases(x) => q("SwapPhases", x.frame_1.qubits.iter().chain(&x.frame_2.qubits).collect()),
+        Instruction::Label(l) => json!({"k": "Label", "target": ids.target_abs(&l.target)}),
+        Instruction::Jump(j) => json!({"k": "Jump", "target": ids.target_abs(&j.target)}),
+        Instruction::JumpWhen(j) => json!({"k": "JumpWhen", "target": ids.target_abs(&j.target)}),
+        Instruction::JumpUnless(j) => json!({"k": "JumpUnless", "target": ids.target_abs(&j.target)}),
+        other => json!({"k": "Other", "text": other.to_quil_or_debug()}),
+    }
+}
+
+fn build(body: &[Value]) -> (Program, Ids) {
+    let mut ids = Ids::default();
+    let mut p = Program::new();
+    for i in body {
+        let kind = s(i, "k");
+        let ins = if is_t(&kind) {
+            let t = ids.target(&i["target"]);
+            make(&kind, vec![], Some(t))
+        } else {
+            let qs = arr(i, "qs").iter().map(|q| ids.qubit(q)).collect();
+            make(&kind, qs, None)
+        };
+        p.add_instruction(ins);
+    }
+    (p, ids)
+}
+
+fn pairs_u64(v: &Value) -> BTreeMap<u64, u64> {
+    v.as_array().map(|a| a.iter().map(|p| (util::u(p, "id"), util::u(p, "v"))).collect()).unwrap_or_default()
+}
+fn pairs_str(v: &Value) -> BTreeMap<u64, String> {
+    v.as_array().map(|a| a.iter().map(|p| (util::u(p, "id"), s(p, "v"))).collect()).unwrap_or_default()
+}
+
+/// run the real resolution; returns the resolved body (abstract)
+fn resolve_real(
+    body: &[Value],
+    mode: &str,
+    tmap: &BTreeMap<u64, String>,
+    qmap: &BTreeMap<u64, u64>,
+) -> (Vec<Value>, Value, Value, bool) {
+    let (mut p, ids) = build(body);
+    // the default resolvers, queried on every placeholder of the body (recorded for the trace)
+    let tr = p.default_target_resolver();
+    let qr = p.default_qubit_resolver();
+    let tres: Vec<Value> = ids.t.iter().filter_map(|(id, ph)| tr(ph).map(|v| json!({"id": id, "v": v}))).collect();
+    let qres: Vec<Value> = ids.q.iter().filter_map(|(id, ph)| qr(ph).map(|v| json!({"id": id, "v": v}))).collect();
+    drop(tr);
+    drop(qr);
+    if mode == "default" {
+        p.resolve_placeholders();
+    } else {
+        let tt: Vec<(TargetPlaceholder, String)> =
+            tmap.iter().filter_map(|(id, v)| ids.t.get(id).map(|ph| (ph.clone(), v.clone()))).collect();
+        let qq: Vec<(QubitPlaceholder, u64)> = qmap.iter().filter_map(|(id, v)| ids.q.get(id).map(|ph| (ph.clone(), *v))).collect();
+        p.resolve_placeholders_with_custom_resolvers(
+            Box::new(move |ph| tt.iter().find(|(x, _)| x == ph).map(|(_, v)| v.clone())),
+            Box::new(move |ph| qq.iter().find(|(x, _)| x == ph).map(|(_, v)| *v)),
+        );
+    }
+    let result: Vec<Value> = p.body_instructions().map(|i| read_back(i, &ids)).collect();
+    let printable = p.to_quil().is_ok();
+    (result, Value::Array(tres), Value::Array(qres), printable)
+}
+
+fn occurrences(b: &[Value]) -> Vec<(usize, usize)> {
+    // (instruction, 0) = its target; (instruction, j >= 1) = its j-th qubit
+    let mut v = vec![];
+    for (m, i) in b.iter().enumerate() {
+        if i.get("target").is_some() {
+            v.push((m, 0));
+        } else if let Some(qs) = i.get("qs").and_then(|q| q.as_array()) {
+            for j in 0..qs.len() {
+                v.push((m, j + 1));
+            }
+        }
+    }
+    v
+}
+fn at<'a>(b: &'a [Value], o: (usize, usize)) -> &'a Value {
+    if o.1 == 0 {
+        &b[o.0]["target"]
+    } else {
+        &b[o.0]["qs"][o.1 - 1]
+    }
+}
+fn is_ph(v: &Value) -> bool {
+    v["t"] == "ph"
+}
+
+/// The statement on (body, result): list of (observable, detail) for every requirement that fails.
+pub fn requirement_failures(
+    b: &[Value],
+    r: &[Value],
+    mode: &str,
+    tmap: &BTreeMap<u64, String>,
+    qmap: &BTreeMap<u64, u64>,
+) -> Vec<(String, String)> {
+    let mut f = vec![];
+    // shape: same instructions, only placeholder operands may change
+    let shape_ok = r.len() == b.len()
+        && b.iter().zip(r).all(|(x, y)| {
+            x["k"] == y["k"]
+                && x.get("target").is_some() == y.get("target").is_some()
+                && x.get("qs").and_then(|q| q.as_array()).map(|q| q.len())
+                    == y.get("qs").and_then(|q| q.as_array()).map(|q| q.len())
+        });
+    if !shape_ok {
+        f.push(("body shape".to_string(), "instructions or operand counts changed".to_string()));
+        return f;
+    }
+    let occ = occurrences(b);
+    for &o in &occ {
+        if !is_ph(at(b, o)) && at(b, o) != at(r, o) {
+            f.push(("non-placeholder operand changed".to_string(), format!("{} -> {}", at(b, o), at(r, o))));
+        }
+    }
+    let phs: Vec<(usize, usize)> = occ.iter().cloned().filter(|&o| is_ph(at(b, o))).collect();
+    if mode == "default" {
+        let fixed_q: BTreeSet<u64> = occ.iter().filter(|&&o| o.1 > 0 && at(b, o)["t"] == "fixed").map(|&o| at(b, o)["n"].as_u64().unwrap()).collect();
+        let fixed_t: BTreeSet<String> =
+            occ.iter().filter(|&&o| o.1 == 0 && at(b, o)["t"] == "fixed").map(|&o| s(at(b, o), "s")).collect();
+        for &o in &phs {
+            let v = at(r, o);
+            if v["t"] != "fixed" {
+                f.push((
+                    if o.1 == 0 { "unresolved label placeholder" } else { "unresolved qubit placeholder" }.to_string(),
+                    format!("instruction {} ({}) still holds {}", o.0, r[o.0]["k"], v),
+                ));
+                continue;
+            }
+            if o.1 > 0 && fixed_q.contains(&v["n"].as_u64().unwrap()) {
+                f.push(("resolved qubit equals a fixed qubit of the body".to_string(), format!("{v}")));
+            }
+            if o.1 == 0 && fixed_t.contains(v["s"].as_str().unwrap()) {
+                f.push(("resolved label equals an existing label or jump target".to_string(), format!("{v}")));
+            }
+        }
+        for &o1 in &phs {
+            for &o2 in &phs {
+                if o1 >= o2 || (o1.1 == 0) != (o2.1 == 0) {
+                    continue;
+                }
+                let same = at(b, o1)["id"] == at(b, o2)["id"];
+                let both_fixed = at(r, o1)["t"] == "fixed" && at(r, o2)["t"] == "fixed";
+                if same && at(r, o1) != at(r, o2) {
+                    f.push(("one placeholder, two values".to_string(), format!("{} vs {}", at(r, o1), at(r, o2))));
+                }
+                if !same && both_fixed && at(r, o1) == at(r, o2) {
+                    f.push(("two placeholders, one value".to_string(), format!("{}", at(r, o1))));
+                }
+            }
+        }
+    } else {
+        for &o in &phs {
+            let id = at(b, o)["id"].as_u64().unwrap();
+            let want = if o.1 == 0 {
+                tmap.get(&id).map(|n| json!({"t": "fixed", "s": n}))
+            } else {
+                qmap.get(&id).map(|n| json!({"t": "fixed", "n": n}))
+            }
+            .unwrap_or_else(|| at(b, o).clone());
+            if at(r, o) != &want {
+                f.push((
+                    "custom resolver: not exactly the returned placeholders replaced".to_string(),
+                    format!("instruction {} ({}): expected {}, found {}", o.0, r[o.0]["k"], want, at(r, o)),
+                ));
+            }
+        }
+    }
+    f
+}
+
+/// concrete spelling of a model class
+fn spell(kind: &str, arity: usize, pos: usize, spelling: usize) -> &'static str {
+    let n = pos + spelling;
+    match kind {
+        "Gate" if arity == 1 => GATE_LIKE_1[(n * 3 + spelling) % GATE_LIKE_1.len()],
+        "Gate" => GATE_LIKE_N[(n * 5 + spelling) % GATE_LIKE_N.len()],
+        "ShiftPhase" => UPDATES[n % UPDATES.len()],
+        "SwapPhases" => "SwapPhases",
+        "Label" => "Label",
+        "Jump" => "Jump",
+        "JumpWhen" => ["JumpWhen", "JumpUnless"][n % 2],
+        other => panic!("unknown model class {other}"),
+    }
+}
+
+fn spelled_body(body: &[Value], spelling: usize) -> Vec<Value> {
+    body.iter()
+        .enumerate()
+        .map(|(pos, i)| {
+            let mut i = i.clone();
+            let arity = i.get("qs").and_then(|q| q.as_array()).map(|q| q.len()).unwrap_or(0);
+            i["k"] = json!(spell(&s(&i, "k"), arity, pos, spelling));
+            i
+        })
+        .collect()
+}
+
+fn nontrivial(body: &[Value]) -> bool {
+    let occ = occurrences(body);
+    occ.iter().any(|&o| is_ph(at(body, o))) && occ.iter().any(|&o| at(body, o)["t"] == "fixed")
+}
+
+fn judge(o: &mut Outcome, body: &[Value], mode: &str, tmap: &BTreeMap<u64, String>, qmap: &BTreeMap<u64, u64>, want: Option<&[Value]>, what: &str) {
+    let (result, _, _, printable) = resolve_real(body, mode, tmap, qmap);
+    o.sub_evaluations += 1;
+    let fails = requirement_failures(body, &result, mode, tmap, qmap);
+    if let Some((obs, detail)) = fails.first() {
+        o.violate(
+            Violation::new(obs, want.map(|w| json!(w)).unwrap_or(Value::Null), json!(result))
+                .note(format!("{what}: {detail}; body {}; all: {:?}", json!(body), fails.iter().map(|x| &x.0).collect::<Vec<_>>())),
+        );
+        return;
+    }
+    if mode == "default" && !printable {
+        o.diverge(format!("{what}: requirements hold on the body but the program does not print"));
+    }
+    if let Some(w) = want {
+        if w != result.as_slice() {
+            o.diverge(format!("{what}: result satisfies the requirements but differs from the model: {}", json!(result)));
+        }
+    }
+}
+
+pub fn replay(_ctx: &Ctx, case: &Value) -> Outcome {
+    if let Some(h) = case.get("history") {
+        let r = &h[0];
+        let body = arr(r, "body").clone();
+        let mut o = Outcome::ok(nontrivial(&body));
+        judge(&mut o, &body, &s(r, "mode"), &pairs_str(&r["tmap"]), &pairs_u64(&r["qmap"]), None, "recorded body");
+        return o;
+    }
+    let body = arr(case, "body");
+    let mode = s(case, "mode");
+    let (tmap, qmap) = (pairs_str(&case["tmap"]), pairs_u64(&case["qmap"]));
+    let mut o = Outcome::ok(nontrivial(body));
+    for spelling in 0..3 {
+        let b = spelled_body(body, spelling);
+        let want = spelled_body(arr(case, "result"), spelling);
+        judge(&mut o, &b, &mode, &tmap, &qmap, Some(&want), &format!("spelling {spelling}"));
+    }
+    o
+}
+
+// ------------------------------------------------------------------------------------------- drive
+
+const BASES: [&str; 4] = ["a", "a", "b", "loop"];
+const FIXED_LABELS: [&str; 7] = ["a_0", "a_1", "b_0", "loop_0", "x", "a", "a_2"];
+
+pub fn drive(ctx: &Ctx) -> Summary {
+    let n = ctx.arg_u64("n", 100);
+    let max_len = ctx.arg_u64("len", 12) as usize;
+    let path = ctx.arg_str("out").expect("--out");
+    let mut out = std::io::BufWriter::new(std::fs::File::create(path).expect("create trace"));
+    let mut rng = util::rng(ctx.seed, 34);
+    let mut sum = Summary::default();
+    let mut seen = std::collections::HashSet::new();
+    for h in 0..n {
+        let len = if h < 3 { h as usize } else { rng.gen_range(1..=max_len) };
+        let nqph = rng.gen_range(0..=5u64);
+        let ntph = rng.gen_range(0..=4u64);
+        let nfixed = rng.gen_range(1..=6u64);
+        let mut body: Vec<Value> = vec![];
+        for _ in 0..len {
+            if rng.gen_bool(0.3) {
+                let kind = T_KINDS.choose(&mut rng).unwrap();
+                let target = if ntph > 0 && rng.gen_bool(0.55) {
+                    let id = rng.gen_range(1..=ntph);
+                    json!({"t": "ph", "id": id, "base": BASES[(id - 1) as usize]})
+                } else {
+                    json!({"t": "fixed", "s": FIXED_LABELS.choose(&mut rng).unwrap()})
+                };
+                body.push(json!({"k": kind, "target": target}));
+            } else {
+                let all: Vec<&str> = GATE_LIKE_1.iter().chain(UPDATES.iter()).chain(["SwapPhases"].iter()).cloned().collect();
+                let kind = *all.choose(&mut rng).unwrap();
+                let arity = match kind {
+                    "Measure" | "Reset" => 1,
+                    "SwapPhases" => rng.gen_range(2..=3),
+                    _ => rng.gen_range(1..=3),
+                };
+                let mut qs: Vec<Value> = vec![];
+                while qs.len() < arity {
+                    let q = match rng.gen_range(0..100) {
+                        0..=44 if nqph > 0 => json!({"t": "ph", "id": rng.gen_range(1..=nqph)}),
+                        45..=49 => json!({"t": "var", "s": "q"}),
+                        _ => json!({"t": "fixed", "n": rng.gen_range(0..nfixed)}),
+                    };
+                    qs.push(q);
+                }
+                body.push(json!({"k": kind, "qs": qs}));
+            }
+        }
+        let custom = rng.gen_bool(0.3);
+        let mode = if custom { "custom" } else { "default" };
+        let mut tmap = BTreeMap::new();
+        let mut qmap = BTreeMap::new();
+        if custom {
+            for id in 1..=ntph {
+                if rng.gen_bool(0.5) {
+                    tmap.insert(id, ["x", "a_0", "z_1", "loop_0"].choose(&mut rng).unwrap().to_string());
+                }
+            }
+            for id in 1..=nqph {
+                if rng.gen_bool(0.5) {
+                    qmap.insert(id, rng.gen_range(0..10u64));
+                }
+            }
+        }
+        let pairs_t: Vec<Value> = tmap.iter().map(|(id, v)| json!({"id": id, "v": v})).collect();
+        let pairs_q: Vec<Value> = qmap.iter().map(|(id, v)| json!({"id": id, "v": v})).collect();
+        let (result, tres, qres, _) = resolve_real(&body, mode, &tmap, &qmap);
+        util::emit(&mut out, &json!({"ev": "reset", "body": body, "mode": mode, "tmap": pairs_t, "qmap": pairs_q}));
+        util::emit(&mut out, &json!({"ev": "tresolver", "map": tres}));
+        util::emit(&mut out, &json!({"ev": "qresolver", "map": qres}));
+        util::emit(&mut out, &json!({"ev": "resolved", "result": result}));
+        let mut o = Outcome::ok(nontrivial(&body));
+        o.count_n("events", 4);
+        let case = json!({"body": body, "mode": mode, "tmap": pairs_t, "qmap": pairs_q});
+        let distinct = seen.insert(case.to_string());
+        sum.absorb(&case, &o, distinct);
+    }
+    sum
 }
